@@ -667,14 +667,14 @@ def run_shard(spec, ctx):
         for n in (6, 7):
             core.enum_shard(core.sliced(seq_pruned(n), ctx.index, ctx.nshards), check_case, ctx, rec=rec)
     # 2. long random histories (state machine)
-    _run_machine(ctx, rec, ctx.pick(60, 600), 200, "machine")
+    _run_machine(ctx, rec, ctx.pick(12, 150), 200, "machine")
     # 3. concurrent schedules
     if ctx.quick:
-        core.hyp_shard(conc_cases(3, "line"), check_case, ctx, ctx.pick(9000, 0), rec=rec, tag="conc")
+        core.hyp_shard(conc_cases(3, "line"), check_case, ctx, 4000, rec=rec, tag="conc")
     else:
         gran = "opcode" if ctx.index % 2 else "line"
         for r in range(10):
-            core.hyp_shard(conc_cases(5, gran), check_case, ctx, 15000, rec=rec, tag="conc%d" % r)
+            core.hyp_shard(conc_cases(5, gran), check_case, ctx, 10000, rec=rec, tag="conc%d" % r)
             if rec.violations:
                 break
     return rec
